@@ -112,3 +112,29 @@ Proof.
     destruct (Nat.leb i j); apply HAB; assumption.
   - intros i j. apply (@cov_seen_randomized Qc QcOps QcField). assumption.
 Qed.
+
+(* packaged statements used by Properties_C06.v *)
+Theorem cov_is_covariance_Qc (N : nat) (X : mat Qc) :
+  N <> 0 -> forall i j, pca_matrix N X i j = cov_spec N X i j.
+Proof. intros HN. apply (@cov_is_covariance Qc QcOps QcField). apply Qc_of_nat_neq0. exact HN. Qed.
+
+Theorem decisions_sound :
+  (forall N D (Xs C : list (list Qc)),
+     cov_seen_dense_b N D (Q2Qc 0) Xs C = Some true ->
+     meq D D (seen_dense (mof C)) (cov_spec N (mof Xs))) /\
+  (forall N D (Xs C : list (list Qc)),
+     cov_seen_randomized_b N D (Q2Qc 0) Xs C = Some true ->
+     meq D D (seen_randomized (mof C)) (cov_spec N (mof Xs))) /\
+  (forall D d (C P : list (list Qc)) (lam : list Qc),
+     eig_contract_tol_b D d (Q2Qc 0) C P lam = Some true ->
+     eig_contract D d (mof C) (mof P) (vof lam)) /\
+  (forall N d (Y : list (list Qc)) (lam : list Qc),
+     uncorrelated_tol_b N d (Q2Qc 0) Y lam = Some true -> uncorrelated N d (mof Y) (vof lam)) /\
+  (forall N D (Xs C : list (list Qc)), N <> 0 -> wf_mat N D Xs -> pca_matrix_exec D Xs = POk C ->
+     cov_seen_dense_b N D (Q2Qc 0) Xs C = Some true /\
+     cov_seen_randomized_b N D (Q2Qc 0) Xs C = Some true).
+Proof.
+  split; [exact cov_seen_dense_b_exact|]. split; [exact cov_seen_randomized_b_exact|].
+  split; [exact eig_contract_tol_b_exact|]. split; [exact uncorrelated_tol_b_exact|].
+  exact model_cov_passes.
+Qed.
